@@ -299,7 +299,7 @@ func cmdAll(tier string, jobs int) int {
 
 func timeoutFor(tier string) int {
 	if tier == "thorough" {
-		return 60
+		return 20
 	}
 	return 10
 }
